@@ -6,6 +6,7 @@
   the API; the right-hand sides are the `List` operations that define `Vec`'s behaviour.
 -/
 import AnyVecModel.Proofs.Exec
+import AnyVecModel.Props.Hist
 import AnyVecModel.Proofs.Move
 namespace AnyVec
 namespace C01
@@ -196,6 +197,18 @@ example : (step { size := 8, align := 8, hasDrop := true } (.remove 0 1 .drop) s
     = [.val 10, .val 12] := by decide
 example : (insertUnchecked 0 1 (.raw 99 0) sampleWorld).1.vis 0
     = [.val 10, .val 99, .val 11, .val 12] := by decide
+
+/-! ### over whole histories -/
+
+/-- **history theorem**: every elementwise operation of the core set — `push`/`insert` (erased and
+typed), `pop`/`remove`/`swap_remove` with the handle dropped, forgotten, downcast, or moved into another
+vector by `push`/`insert`, `clear` — run from any reachable world under any fault state leaves every
+vector well formed and fully initialised and every element in exactly one place, and never faults on
+memory; the step-level theorems above give the exact contents on the fault-free paths. -/
+theorem history_elementwise_core (cfg : Cfg) (w : World) (hr : Hist.Reach cfg w) (op : Op) (f : Option Nat)
+    (hc : Hist.Core op) (hv : Hist.Valid w.vecs op) :
+    (runStep cfg op f w).1.Inv ∧ (runStep cfg op f w).2.notUb :=
+  Hist.runStep_inv cfg op f w (Hist.reach_inv_core cfg w hr) hc hv
 
 end C01
 end AnyVec
